@@ -31,11 +31,14 @@ def stmt(act):
     if a == "DestructureVar": return f"({n}, {m}) := {act['k']}"
     if a == "Eval": return f"{n}"
     if a == "FailingCall":      # needs FN_DEFS in the main program; the variant is chosen by the caller through act["i"]
-        return ["zzq := zzbad(1)", "zzq := zzpick(5)", "zzbad(2)", f"{n} = zzbad(3)", "zzq := zzbad(\"s\")", "zzw := zzpick(7) + 1"][act.get("i", 0) % 6]
+        return ["zzq := zzbad(1)", "zzq := zzpick(5)", "zzbad(2)", f"{n} = zzbad(3)", "zzq := zzbad(\"s\")", "zzw := zzpick(7) + 1",
+                # the body PANICS inside the call (unsigned underflow, out-of-range index): caught at the interpret boundary
+                "zzq := zzdec(0u64)", "zzat([1 2 3])", f"{n} = zzat([1 2 3])", "zzw := zzdec(0u64) + 1u64"][act.get("i", 0) % 10]
     raise ValueError(act)
 
-# user functions whose calls fail at run time (body reads an undefined name; no arm matches) - definitions change no variable
-FN_DEFS = "zzbad(x<f64>) = z<f64> :=\n  z := x + zzmissing.\n\nzzpick(x<f64>) => <f64>\n  | 0 => 10\n  | 1 => 11."
+# user functions whose calls fail at run time (body reads an undefined name; no arm matches; the body panics) - definitions change no variable
+FN_DEFS = ("zzbad(x<f64>) = z<f64> :=\n  z := x + zzmissing.\n\nzzpick(x<f64>) => <f64>\n  | 0 => 10\n  | 1 => 11.\n\n"
+           "zzdec(n<u64>) = r<u64> :=\n  r := n - 1u64.\n\nzzat(m<[f64]>) = r<f64> :=\n  r := m[7].")
 
 def num(n): return ('num', 'f64', F(n))
 
